@@ -74,6 +74,87 @@ def h_max(ctx, n, k):
     ctx.claim('maximum_modulus_is_true', ctx.all_([ctx.ge(y * y, F[j] * F[j]) for j in multi_indices(n)]))
 
 
+def _nondet_index(ctx, tag, n):
+    """A nondeterministically chosen multi-index (every choice explored by forking)."""
+    if not is_sym(ctx):
+        return [0] * len(n)
+    out = []
+    for k, nk in enumerate(n):
+        t = ctx.integer(f'{tag}_{k}')
+        ctx.assume(t >= 0)
+        ctx.assume(t < nk)
+        out.append(ctx.concretize_int(t))
+    return out
+
+
+def h_optima_tt_order(ctx, n, r):
+    """optima_tt around the contract of optima_tt_max (proved above: an index in
+    bounds with the true entry as value, the maximum modulus only when nothing is
+    pruned): whatever the two searches return, the reported pair is ordered, lies
+    in bounds and carries true entries."""
+    Y = ctx.tt('y', n, r)
+    F = ref_full(Y)
+    calls = []
+    if is_sym(ctx):
+        saved = teneva.optima_tt_max
+
+        def stub(T, k=100):
+            i = _nondet_index(ctx, f'pick{len(calls)}', n)
+            calls.append(i)
+            return np.array(i), ref_get(T, i)
+        import sys
+        omod = sys.modules['teneva.optima']
+        real = omod.optima_tt_max
+        omod.optima_tt_max = stub
+        try:
+            i_min, y_min, i_max, y_max = teneva.optima_tt(Y, 1)
+        finally:
+            omod.optima_tt_max = real
+    else:
+        i_min, y_min, i_max, y_max = teneva.optima_tt(Y, 1)
+    i_min = [int(x) for x in i_min]
+    i_max = [int(x) for x in i_max]
+    ctx.claim('indices_in_bounds', all(0 <= a < b for a, b in zip(i_min + i_max, list(n) + list(n))))
+    ctx.claim('values_are_entries', ctx.all_([ctx.eq(y_min, F[tuple(i_min)]), ctx.eq(y_max, F[tuple(i_max)])]))
+    ctx.claim('min_not_above_max', ctx.le(y_min, y_max))
+
+
+def h_optima_qtt_values(ctx, q):
+    """optima_qtt around the contracts of tt_to_qtt (an approximation, possibly
+    lossy) and optima_tt (indices in bounds, values = entries of ITS argument):
+    the reported values are entries of the ORIGINAL tensor at the mapped-back
+    indices, and the pair is ordered only as far as those entries are."""
+    N = 1 << q
+    d = 2
+    Y = ctx.tt('y', [N] * d, 1)
+    F = ref_full(Y)
+    if is_sym(ctx):
+        import sys
+        omod = sys.modules['teneva.optima']
+        Zq = ctx.tt('z', [2] * (d * q), 1)               # some QTT tensor (lossy conversion)
+        saved_q = teneva.tt_to_qtt
+        real_tt = omod.optima_tt
+
+        def stub_tt(T, k=100):
+            a = _nondet_index(ctx, 'qa', [2] * (d * q))
+            b = _nondet_index(ctx, 'qb', [2] * (d * q))
+            return np.array(a), ref_get(T, a), np.array(b), ref_get(T, b)
+        teneva.tt_to_qtt = lambda T, e=1e-12, r=100: Zq
+        omod.optima_tt = stub_tt
+        try:
+            i_min, y_min, i_max, y_max = teneva.optima_qtt(Y, 1, 1., 2)
+        finally:
+            teneva.tt_to_qtt = saved_q
+            omod.optima_tt = real_tt
+    else:
+        i_min, y_min, i_max, y_max = teneva.optima_qtt(Y, 1, 1., 2)
+    i_min = [int(x) for x in i_min]
+    i_max = [int(x) for x in i_max]
+    ctx.claim('indices_in_bounds', all(0 <= a < N for a in i_min + i_max))
+    ctx.claim('values_are_entries_of_the_original', ctx.all_([ctx.eq(y_min, F[tuple(i_min)]),
+                                                               ctx.eq(y_max, F[tuple(i_max)])]))
+
+
 def instances(tier):
     out = []
     quick = tier == 'quick'
@@ -82,6 +163,11 @@ def instances(tier):
                         [([2, 2], 1, 1, False), ([2, 2], 2, 4, True), ([2, 2], 2, 4, False), ([2, 2], 2, 1, False),
                          ([2, 3], 2, 6, False), ([2, 2, 2], 1, 1, False), ([2, 2, 2], 1, 2, False)]):
         out.append({'func': 'h_beam', 'params': {'n': n, 'r': r, 'k': k, 'fixed_q': fq}, 'opts': G})
+    out.append({'func': 'h_optima_tt_order', 'params': {'n': [2, 2], 'r': 1}, 'opts': {'symbolic_signs': False}})
+    out.append({'func': 'h_optima_qtt_values', 'params': {'q': 1}, 'opts': {'symbolic_signs': False}})
+    if not quick:
+        out.append({'func': 'h_optima_tt_order', 'params': {'n': [2, 3], 'r': 2}, 'opts': {'symbolic_signs': False}})
+        out.append({'func': 'h_optima_qtt_values', 'params': {'q': 2}, 'opts': {'symbolic_signs': False}})
     for n, k in ([] if quick else [([2, 2], 1), ([2, 2], 2), ([2, 2, 2], 1)]):
         out.append({'func': 'h_max', 'params': {'n': n, 'k': k}, 'opts': G})
     return out
@@ -93,7 +179,7 @@ BOUNDS = {
              'any sign, ties via both fork directions',
     'thorough': 'adds symbolic Householder second core for rank 2, optima_tt_max on rank-1 tensors, 2x3 rank 2 with k=6, rank-1 d=3',
 }
-OUTSIDE = ('optima_tt (min/max through sub/mul of derived tensors: factorisations of Kronecker cores are not encodable), optima_qtt, '
+OUTSIDE = ('the searches inside optima_tt / optima_qtt on derived tensors (factorisations of Kronecker cores are not encodable: those two are checked around the contracts of optima_tt_max / tt_to_qtt / optima_tt), '
            'optima_tt_maxvol, the functional variant (root completeness of a numerical eigenvalue solver); larger shapes '
            '(sorting N symbolic keys costs up to N! paths); the exactly zero tensor (q_max = 0)')
 ASSUMPTIONS = ['tensor given in right-orthogonal form (assume-guarantee with C04/C16: orthogonalize returns such a form)',
